@@ -34,12 +34,12 @@ type Profile struct {
 	Calls       bool
 	Clean       bool // avoid the triggers of recorded known findings
 	Throttle    int
-	Denials     bool // the access policy denies some (token, resource) pairs
-	Malformed   bool // malformed client frames, service answers, events and system events injected
-	StopAt      bool // inject Stop or messaging loss at a random step, then check the shutdown contract
-	Queries     bool // resources 0 and 1 are query resources (normalisation q=K -> q=K mod 2) with query events
-	LongRids    bool // resource ids around the control-line limit
-	Endgame     bool // finish by disconnecting every client and firing every eviction timer
+	Denials     bool   // the access policy denies some (token, resource) pairs
+	Malformed   bool   // malformed client frames, service answers, events and system events injected
+	StopAt      bool   // inject Stop or messaging loss at a random step, then check the shutdown contract
+	Queries     bool   // resources 0 and 1 are query resources (normalisation q=K -> q=K mod 2) with query events
+	LongRids    bool   // resource ids around the control-line limit
+	Endgame     bool   // finish by disconnecting every client and firing every eviction timer
 	Scenario    string `json:",omitempty"` // phase-structured histories (scenario.go) instead of independent random stimuli
 }
 
@@ -53,14 +53,14 @@ type Explorer struct {
 	tag    int
 	seq    int
 	// bookkeeping for clean-mode guards: outstanding client requests per (client, rid)
-	outstanding map[string]int
-	direct      map[string]int
-	reqOf       map[string]string // "c id" -> "kind rid"
-	tokens      map[string]int
-	deletedRids map[string]bool
-	pol         map[string]accessPolicy
+	outstanding  map[string]int
+	direct       map[string]int
+	reqOf        map[string]string // "c id" -> "kind rid"
+	tokens       map[string]int
+	deletedRids  map[string]bool
+	pol          map[string]accessPolicy
 	pendingQuery map[string]*pendingQ
-	steps       int
+	steps        int
 	// concentration of a history (about half of them): most requests come from one client and concern one
 	// resource, and the answers to one kind of request for one resource are held back, so that multi-step
 	// collisions on one (connection, resource) pair and long loading windows are frequent
@@ -576,6 +576,9 @@ func Explore(seed int64, p Profile) (run *gw.Run, stall error) {
 		}
 	}()
 	x.initTruth()
+	if p.Throttle > 0 {
+		x.Run.Do(gw.Action{A: "note", Abs: "THROTTLE\t" + strconv.Itoa(p.Throttle)})
+	}
 	x.focusC, x.focusR, x.slowR = -1, -1, -1
 	if x.R.Intn(2) == 0 {
 		x.focusC, x.focusR = x.R.Intn(p.Clients), x.R.Intn(p.Resources)
